@@ -617,7 +617,9 @@ Proof.
   intros HN Hc Hs. pose proof (flags_ok_1024 c N HN Hc Hs) as F. unfold flags_ok in F. cbv zeta in F.
   apply andb_prop in F as [F F4]. apply andb_prop in F as [F F3]. apply andb_prop in F as [F1 F2].
   apply eqb_prop_true in F1, F2, F3, F4. unfold mogs_unavail_code, unavail_def. rewrite F3, F4.
-  destruct (Qle_bool tfv 0) eqn:T0, (Qle_bool 1 tfv) eqn:T1; cbn [negb orb andb];
+  assert (X : Qle_bool tfv 0 = true -> Qle_bool 1 tfv = true -> False).
+  { intros A B. apply Qle_bool_iff in A, B. pose proof (Qle_trans _ _ _ B A) as K. unfold Qle in K; cbn in K; lia. }
+  destruct (Qle_bool tfv 0) eqn:T0, (Qle_bool 1 tfv) eqn:T1; [exfalso; now apply X | | |]; cbn [negb orb andb];
     destruct (Z.leb_spec c 0), (Z.leb_spec N c), (Z.eqb_spec c N), (Z.eqb_spec c 0); cbn; try reflexivity; try lia.
 Qed.
 
